@@ -3,7 +3,7 @@
 
 *)
 From Coq Require Import ZArith NArith List Bool Arith.
-From NSG Require Import Base.Prelude Model.Defender Model.Coord Proofs.CoordBase Proofs.CoordInv Proofs.CoordInvConn Proofs.CoordInvDispatch Proofs.CoordInvHandler Proofs.CoordProps Proofs.CoordDirect Proofs.CoordInv2 Proofs.CoordAgentStep Proofs.CoordBarrier Proofs.CoordMeasure Proofs.CoordIsolation.
+From NSG Require Import Base.Prelude Model.Defender Model.Coord Proofs.CoordBase Proofs.CoordInv Proofs.CoordInvConn Proofs.CoordInvDispatch Proofs.CoordInvHandler Proofs.CoordProps Proofs.CoordDirect Proofs.CoordInv2 Proofs.CoordAgentStep Proofs.CoordBarrier Proofs.CoordMeasure Proofs.CoordIsolation Proofs.CoordLimit.
 Import ListNotations.
 
 (* the reset task does nothing unless the game is non-empty and every agent in it has asked *)
@@ -121,8 +121,10 @@ Proof. exact (@idle_barriers_unmet). Qed.
 
 (* only the reset task clears a request *)
 Theorem C07_cleared_by_reset :
-  forall (V G : Type) (cfg : config) (a a' : @agent V G) (l : @label G),
-       @achange V G cfg a l a' -> @a_req V G a = true -> @a_req V G a' = false -> l = @LRun G TReset.
+  forall (V G : Type) (goal : role -> V -> bool) (detect : list G -> G -> bool) 
+         (cfg : config) (a a' : @agent V G) (l : @label G),
+       @achange V G goal detect cfg a l a' ->
+       @a_req V G a = true -> @a_req V G a' = false -> l = @LRun G TReset.
 Proof. exact (@achange_req_cleared). Qed.
 
 
